@@ -24,7 +24,58 @@ pub mod c15;
 pub mod c16;
 pub mod c17;
 
+/// Show a stored witness and what the current tree says about the stored input
+/// (informational: prints the diagnostics, does not re-judge).
+pub fn replay(ctx: &Ctx, path: &std::path::Path) -> i32 {
+    let Ok(text) = std::fs::read_to_string(path) else {
+        eprintln!("rvmon: cannot read {}", path.display());
+        return 2;
+    };
+    let Ok(v) = serde_json::from_str::<serde_json::Value>(&text) else {
+        eprintln!("rvmon: {} is not JSON", path.display());
+        return 2;
+    };
+    println!("REPLAY property={} signature={}", v["property"].as_str().unwrap_or(&ctx.prop), v["signature"].as_str().unwrap_or(""));
+    println!("what: {}", v["what"].as_str().unwrap_or(""));
+    let r = &v["replay"];
+    let show = |name: &str, files: Vec<(String, String)>| {
+        println!("--- linting stored `{name}` on the current tree");
+        match crate::rva::guarded(|| crate::rva::analyze_files(&files, &files[0].0)) {
+            Ok(a) => {
+                for d in a.all_diags() {
+                    println!("    {}", common::diag_brief(&d));
+                }
+                println!("    ({} diagnostics)", a.all_diags().len());
+            }
+            Err(p) => println!("    PANIC at {}: {}", p.site(), p.msg),
+        }
+    };
+    if let Some(obj) = r.as_object() {
+        for (k, val) in obj {
+            if let Some(s) = val.as_str() {
+                if s.contains('\n') || ["program", "file", "input", "text", "base", "rewritten", "original", "renamed", "a", "b"].contains(&k.as_str()) {
+                    show(k, vec![("main.s".to_string(), s.to_string())]);
+                }
+            } else if k == "files" {
+                if let Some(arr) = val.as_array() {
+                    let files: Vec<(String, String)> = arr
+                        .iter()
+                        .filter_map(|p| Some((p.get(0)?.as_str()?.to_string(), p.get(1)?.as_str()?.to_string())))
+                        .collect();
+                    if !files.is_empty() {
+                        show("files", files);
+                    }
+                }
+            }
+        }
+    }
+    0
+}
+
 pub fn run(ctx: &Ctx) -> i32 {
+    if let Some(p) = &ctx.replay {
+        return replay(ctx, p);
+    }
     match ctx.prop.as_str() {
         "C01" => c01::run(ctx),
         "C02" => c02::run(ctx),
